@@ -71,7 +71,7 @@ theorem applyAfter_timer (w : World) (op : Nat) (a : After) (hI : TimerInv w) : 
   | none => exact hI
   | decDisp => exact timerInv_objs hI rfl
   | postDone => exact timerInv_objs hI rfl
-  | timerDone k rep =>
+  | timerDone k rep cb =>
     simp only [applyAfter]
     cases hg : getObj w k with
     | none => exact hI
@@ -138,7 +138,7 @@ theorem pollDispatch_timer (w w' : World) (op : Nat) (rest : List K) (hI : Timer
         all_goals first
           | (cases h; done)
           | (cases h
-             apply timerInv_objs (w := setObj { w with pending := w.pending - 1 } { o with evR := false, tstate := .ready, cancelledRep := (o.cancelledRep && info.kind != OpKind.timerRep) }) _ rfl
+             apply timerInv_objs (w := setObj { w with pending := w.pending - 1 } { o with evR := false, tstate := .ready }) _ rfl
              apply timerInv_setObj (timerInv_objs hI rfl)
              intro hk; exact ⟨by simp, (ho hk).2⟩)
           | (cases h
@@ -241,7 +241,7 @@ theorem step_timer (w w' : World) (e : Ev) (hI : TimerInv w) (h : step w e = som
       all_goals first
         | timer_branch
         | (cases h
-           apply timerInv_objs (w := setObj (unsetPending w o) { o with evR := false, cancelled := true, cancelledRep := true, tstate := .ready }) _ rfl
+           apply timerInv_objs (w := setObj (unsetPending w o) { o with evR := false, cancelled := true, cancels := o.cancels + 1, tstate := .ready }) _ rfl
            apply timerInv_setObj (timerInv_objs hI rfl)
            intro hk; exact ⟨by simp, (ho hk).2⟩)
   · rename_i k rest b hst
